@@ -101,8 +101,9 @@ namespace Givaro {
     Integer& powmod(Integer& Res, const Integer& n, const int64_t e, const Integer& m)
     {
         if (e < 0) {
-            inv(Res, n, m);
-            return powmod(Res, Res, (uint64_t)std::abs(e), m);
+            Integer ninv; // Res may be the same object as m
+            inv(ninv, n, m);
+            return powmod(Res, ninv, (uint64_t)std::abs(e), m);
         }
         else {
             return powmod (Res, n, (uint64_t)(e), m);
